@@ -4,7 +4,7 @@ CONSTANTS
   MaxWire = 255
   KLabel = 4
   KTwo = 2
-  KText = 6
+  KText = 5
   KWire = 1
   VAlpha = {65}
   BigK = {1}
